@@ -83,11 +83,11 @@ def check(run):
                       'position / line-map / temporary-file bookkeeping for the actual side and the expected side are exact mirror '
                       'images of each other (near-mirror statement pairs must be equal under actual<->expected)')
     run.floor('C15-MIRROR', nst, 150)
-    cmdfiles(run, p, fc)
-    rawlines(run, p, fc)
-    tmpcfg(run, p, rt, fc)
-    emptycontent(run, p, fc)
-    sameguide(run, p, fc)
+    run.attempt(cmdfiles, run, p, fc)
+    run.attempt(rawlines, run, p, fc)
+    run.attempt(tmpcfg, run, p, rt, fc)
+    run.attempt(emptycontent, run, p, fc)
+    run.attempt(sameguide, run, p, fc)
 
 
 def cmdfiles(run, p, fc):
